@@ -6,4 +6,5 @@ let table = [
   (4, FamSched.run_fam_sched);
   (5, FamSensor.run_fam_sensor);
   (6, FamFloor.run_fam_floor);
+  (7, FamSys.run_fam_sys);
 ]
